@@ -1,8 +1,38 @@
 import Driver.Util
-/-! Driver commands: Value (stub — replaced by the real handler). -/
+import Slock.Model.Value
+/-! Driver command for M-VALUE:
+  value <locked> <waited01> <lock|unlock> <updOrZero01> <fromAof01> <recover01> <frame hex>;<frame hex>;…
+  The cell starts empty; the frames are applied in order through `Slock.Value.processFrame`; after a panic the
+  cell is discarded (fresh manager). Output, one item per frame joined by `;`:
+    nil | <data hex> <commandType> <isAof01> <bytes between len and cap, hex> | panic
+-/
 namespace Driver
+open Slock.Value
+
+def showCell : Option Cell → String
+  | none => "nil"
+  | some c => s!"{showHex c.data} {c.ctype} {if c.isAof then 1 else 0} {showHex c.extra}"
+
+def runFrames (cx : Ctx) : Option Cell → List Bytes → List String
+  | _, [] => []
+  | cur, f :: fs =>
+    match processFrame cx cur f with
+    | .ok cur' => showCell cur' :: runFrames cx cur' fs
+    | .error _ => "panic" :: runFrames cx none fs
+
+def parse01 (s : String) : Option Bool :=
+  if s == "0" then some false else if s == "1" then some true else none
 
 def handleValue : List String → Option String
+  | ["value", locked, waited, ct, upd, aof, rec, frames] => do
+    let l ← locked.toNat?
+    let w ← parse01 waited
+    let t ← if ct == "lock" then some CmdType.lock else if ct == "unlock" then some CmdType.unlock else none
+    let u ← parse01 upd
+    let a ← parse01 aof
+    let r ← parse01 rec
+    let fs ← (frames.splitOn ";").mapM parseHex
+    pure (";".intercalate (runFrames ⟨l, w, t, u, a, r⟩ none fs))
   | _ => none
 
 end Driver
